@@ -139,9 +139,12 @@ fn async_heavy_weights() -> OpWeights {
 	OpWeights { send: 30, claim: 8, fail: 3, deliver: 55, flush: 2, events: 8, forwards: 16, disconnect: 1, reconnect: 4, setfee: 1, async_toggle: 16, complete: 4, pump: 3, ..OpWeights::zero() }
 }
 
+/// (Reorganisations are left to the other parts: when a reorg un-does an on-chain HTLC resolution, a reloaded
+/// manager re-derives the already failed-and-forgotten payment from the monitor on start-up, the running one
+/// does not; that is start-up reconciliation, not serialization.)
 fn twin_strat() -> impl Strategy<Value = TwinCase> {
 	proptest::bool::weighted(0.4).prop_flat_map(|heavy| {
-		let (w, topos, node) = if heavy { (async_heavy_weights(), vec![Topology::Line3], (30_000u16..35_000).boxed()) } else { (weights(), vec![Topology::Pair, Topology::Line3, Topology::Line3], any::<u16>().boxed()) };
+		let (w, topos, node) = if heavy { (async_heavy_weights(), vec![Topology::Line3], (30_000u16..35_000).boxed()) } else { (OpWeights { reorg: 0, ..weights() }, vec![Topology::Pair, Topology::Line3, Topology::Line3], any::<u16>().boxed()) };
 		(world_spec(topos), proptest::collection::vec(op_strategy(w), 8..45), node, proptest::collection::vec(op_strategy(suffix_weights()), 3..14)).prop_map(|(spec, prefix, node, suffix)| TwinCase { spec, prefix, node, suffix })
 	})
 }
@@ -992,7 +995,7 @@ fn main() {
 	c.assume("byte-for-byte stability write(read(b)) == b does NOT hold for monitors, managers, graphs and scorers on the unchanged tree because hash-map entries are written in per-instance random order (observed in >90% of monitor images); asserted instead: equality under the library's `==` (monitor, update, graph), equal length and byte histogram of the re-encoding, and canonical (key-sorted) byte equality for the scorer; ChannelMonitorUpdate and OutputSweeper state contain no hash maps and are compared byte-for-byte (sweeper: up to signature randomness / input order of the sweep transaction)");
 	c.assume("ChannelMonitor `==` includes `failed_back_htlc_ids`, documented as in-memory only (\"Not serialized\"): a live monitor of a forwarding node in a world with a closed channel that differs from its read-back image is accepted if the re-encoding has the same bytes up to order and the read-back image is a fixed point (label eq-exempt:failed-back-set)");
 	c.assume("update-commutes-with-round-trip is strict for updates applied outside block delivery; inside a block-delivering operation the monitor also changes through chain data between two persist calls, so a mismatch there is counted as unverifiable, not as a violation; pending (monitor) events drained by the manager between two persist calls are drained on both sides before a second comparison");
-	c.assume("manager twin: the reloaded node is read from encode() and the encodings of its live monitors taken at the same instant (no staleness; crash consistency is C10's subject); the never-reloaded twin gets the equivalent bounce (in-flight monitor updates completed, persistence synchronous, all connections dropped); both twins get rebroadcast_pending_claims() before every comparison (the background processor's timer); worlds are compared at quiescence after each subsequent operation");
+	c.assume("manager twin: the reloaded node is read from encode() and the encodings of its live monitors taken at the same instant (no staleness; crash consistency is C10's subject); the never-reloaded twin gets the equivalent bounce (in-flight monitor updates completed, persistence synchronous, all connections dropped); both twins get rebroadcast_pending_claims() before every comparison (the background processor's timer); the miner of the twin worlds only considers transactions both worlds broadcast (identified by txid, fee-bumping transactions by what they spend besides wallet outputs); twin histories contain no reorganisations (a reloaded manager re-derives payments from monitors whose on-chain resolution a reorg un-did); worlds are compared at quiescence after each subsequent operation");
 	c.assume("legitimate differences after a reload that are excluded, with reason: witness data / signatures (LDK signs with auxiliary randomness from the entropy source), hold_times (wall clock), BumpTransaction events and the transactions their handler broadcasts (not persisted by design, regenerated as needed; wallet UTXO choice depends on handling order), repeated events (documented at-least-once delivery), payment-resolution events re-derived at start-up from closed channels' monitors (kinds PaymentPathSuccessful, PaymentSent, PaymentClaimed, PaymentFailed, PaymentPathFailed, PaymentForwarded; labelled), re-broadcasts of transactions already broadcast before the reload; events emitted by the running node must all be emitted by the reloaded one");
 	c.assume("scorer: the stand-in for the current time (last update time, used only by probing_diversity_penalty_msat) is not persisted; penalties are compared without that penalty right after the round trip and with it after both scorers received the same further updates");
 	c.assume("single-byte mutations: value-level corruption is undetectable by design (no checksums), and what the library does with a well-formed but semantically corrupted object (debug assertions / overflow checks in read cross-checks, write, list_channels; an object whose own encoding no longer reads) is recorded as labels finding:mutation-*; failing oracles are: every strict prefix is rejected without panic, unknown odd TLV in the tail stream is skipped and the object is unchanged, unknown even TLV is rejected, no hang / over-allocation (watchdog). C12_STRICT_MUTATIONS=1 turns the labels into failures");
